@@ -55,6 +55,158 @@ func c06eval(e ast.Expr, en env) constant.Value {
 	return evalExpr(e, en)
 }
 
+// ---- same-package helper resolution (a fact about "handshake builds / writes a response" also holds when the
+// building / writing happens in an unexported helper the function calls)
+
+var c06pkgFilesCache []*ast.File
+
+// c06pkgFiles: the non-test files of internal/socketace that can carry a helper of the handshake code.
+func c06pkgFiles() []*ast.File {
+	if c06pkgFilesCache == nil {
+		for _, rel := range []string{"server.go", "client.go", "util.go", "request.go", "response.go"} {
+			c06pkgFilesCache = append(c06pkgFilesCache, parse("internal/socketace/"+rel))
+		}
+	}
+	return c06pkgFilesCache
+}
+
+// c06callee resolves `f(…)` to a plain function and `x.m(…)` (x an identifier, e.g. the receiver) to a method of that
+// name declared in the package; nil when it is something else (another package, a func value, a builtin).
+func c06callee(c *ast.CallExpr) *ast.FuncDecl {
+	name, method := "", false
+	switch f := c.Fun.(type) {
+	case *ast.Ident:
+		name = f.Name
+	case *ast.SelectorExpr:
+		x, ok := f.X.(*ast.Ident)
+		if !ok || x.Obj == nil { // package-qualified names (log.Warnf, errors.New) have no Obj
+			return nil
+		}
+		name, method = f.Sel.Name, true
+	default:
+		return nil
+	}
+	for _, file := range c06pkgFiles() {
+		for _, d := range file.Decls {
+			fd, ok := d.(*ast.FuncDecl)
+			if ok && fd.Body != nil && fd.Name.Name == name && (fd.Recv != nil) == method {
+				return fd
+			}
+		}
+	}
+	return nil
+}
+
+// c06paramNames: the parameter names of fd in order ("" for unnamed / blank ones).
+func c06paramNames(fd *ast.FuncDecl) []string {
+	var ns []string
+	for _, fl := range fd.Type.Params.List {
+		if len(fl.Names) == 0 {
+			ns = append(ns, "")
+		}
+		for _, n := range fl.Names {
+			ns = append(ns, n.Name)
+		}
+	}
+	return ns
+}
+
+// c06bind: the environment inside callee fd for the call c: the constants of en plus every parameter whose argument
+// folds to a constant.
+func c06bind(fd *ast.FuncDecl, c *ast.CallExpr, en env) env {
+	e2 := env{}
+	for k, v := range en {
+		e2[k] = v
+	}
+	ns := c06paramNames(fd)
+	for i, a := range c.Args {
+		if i < len(ns) && ns[i] != "" && ns[i] != "_" {
+			delete(e2, ns[i])
+			if v := c06eval(a, en); v != nil {
+				e2[ns[i]] = v
+			}
+		}
+	}
+	return e2
+}
+
+// c06respLit: (StatusCode, Status) of a `Response{…}` / `&Response{…}` literal under en; ok=false when e is not one.
+// A field that is absent or does not fold to a constant is reported as "".
+func c06respLit(e ast.Expr, en env) (code, st string, ok bool) {
+	if u, isU := e.(*ast.UnaryExpr); isU && u.Op == token.AND {
+		e = u.X
+	}
+	cl, isCl := e.(*ast.CompositeLit)
+	if !isCl || exprString(cl.Type) != "Response" {
+		return "", "", false
+	}
+	for _, el := range cl.Elts {
+		kv, isKv := el.(*ast.KeyValueExpr)
+		if !isKv {
+			continue
+		}
+		v := c06eval(kv.Value, en)
+		if v == nil {
+			continue
+		}
+		switch exprString(kv.Key) {
+		case "Status":
+			if v.Kind() == constant.String {
+				st = constant.StringVal(v)
+			}
+		case "StatusCode":
+			code = v.ExactString()
+		}
+	}
+	return code, st, true
+}
+
+// c06respCall: a call of a package helper that does nothing but build a response: its body contains exactly one
+// Response literal (evaluated with the parameters bound to the constant arguments of the call), or returns the result
+// of another such helper (followed up to three levels).  ok=false when the call is not of that kind.
+func c06respCall(c *ast.CallExpr, en env, depth int) (code, st string, ok bool) {
+	fd := c06callee(c)
+	if fd == nil || depth > 3 || fd.Type.Results == nil || len(fd.Type.Results.List) != 1 {
+		return "", "", false
+	}
+	rt := fd.Type.Results.List[0].Type
+	if s, isS := rt.(*ast.StarExpr); isS {
+		rt = s.X
+	}
+	if exprString(rt) != "Response" {
+		return "", "", false
+	}
+	e2 := c06bind(fd, c, en)
+	n := 0
+	ast.Inspect(fd.Body, func(nd ast.Node) bool {
+		switch x := nd.(type) {
+		case *ast.CompositeLit:
+			if c2, s2, isR := c06respLit(x, e2); isR {
+				code, st = c2, s2
+				n++
+			}
+		case *ast.CallExpr:
+			if c2, s2, isR := c06respCall(x, e2, depth+1); isR {
+				code, st = c2, s2
+				n++
+				return false
+			}
+		case *ast.AssignStmt:
+			// a helper that sets the status afterwards is not a pure builder: not vouched for
+			for _, l := range x.Lhs {
+				if strings.HasSuffix(exprString(l), ".Status") || strings.HasSuffix(exprString(l), ".StatusCode") {
+					n += 2
+				}
+			}
+		}
+		return true
+	})
+	if n != 1 {
+		return "", "", n > 0 // a Response-returning helper of a shape we cannot read: ok with empty values = caller fails
+	}
+	return code, st, true
+}
+
 func leanStr06(s string) string { return strconv.Quote(s) }
 
 func init() {
@@ -125,28 +277,22 @@ func init() {
 			ast.Inspect(fd.Body, func(n ast.Node) bool {
 				switch x := n.(type) {
 				case *ast.CompositeLit:
-					if exprString(x.Type) != "Response" {
+					code, st, ok := c06respLit(x, en)
+					if !ok {
 						return true
-					}
-					var st, code string
-					for _, el := range x.Elts {
-						kv, ok := el.(*ast.KeyValueExpr)
-						if !ok {
-							continue
-						}
-						v := c06eval(kv.Value, en)
-						if v == nil {
-							continue
-						}
-						switch exprString(kv.Key) {
-						case "Status":
-							st = constant.StringVal(v)
-						case "StatusCode":
-							code = v.ExactString()
-						}
 					}
 					if st == "" || code == "" {
 						fail("%s: Response literal without constant Status/StatusCode: %s", fn, src(x))
+					}
+					res = append(res, [2]string{code, st})
+				case *ast.CallExpr:
+					// a response built by a helper of the package (`newErrorResponse(http.StatusX, "…")`)
+					code, st, ok := c06respCall(x, en, 0)
+					if !ok {
+						return true
+					}
+					if st == "" || code == "" {
+						fail("%s: response built by %s without constant Status/StatusCode", fn, src(x))
 					}
 					res = append(res, [2]string{code, st})
 				case *ast.AssignStmt:
